@@ -336,7 +336,9 @@ impl World {
                         self.mmio_violation("mmio-legacy-no-guest-page-size", "QueuePFN", "QueuePFN written although GuestPageSize was never written".into());
                     }
                     let pos = |r: u32| w.iter().position(|x| *x == r);
-                    let (pn, pa, pp) = (pos(0x038), pos(0x03c), pos(0x040));
+                    // (the write being judged is the last QueuePFN write; an earlier one of 0 stopped
+                    // a queue that was still live)
+                    let (pn, pa, pp) = (pos(0x038), pos(0x03c), w.iter().rposition(|x| *x == 0x040));
                     if !(pn.is_some() && pa.is_some() && pn < pp && pa < pp) {
                         self.mmio_violation(
                             "mmio-queue-setup-order",
